@@ -27,10 +27,16 @@ var ExtraHalves []func(r *chk.Run)
 var ExtraReplays = map[string]func(input json.RawMessage) (bool, string){}
 
 func run(r *chk.Run) {
-	RunDecode(r)
+	// the end-to-end half first: it decodes table maps in the order a stream
+	// delivers them, so state shared between decodes shows reproducibly there
 	for _, f := range ExtraHalves {
 		f(r)
 	}
+	if r.Violated() {
+		r.SetExhaustive(false)
+		return
+	}
+	RunDecode(r)
 }
 
 func replay(kind string, input json.RawMessage) (bool, string) {
